@@ -115,7 +115,8 @@ def audit(state, pid, theorems, module):
     os.makedirs(d, exist_ok=True)
     path = os.path.join(d, 'Audit_%s_%d.lean' % (pid, os.getpid()))
     with open(path, 'w') as f:
-        f.write('import %s\n' % module)
+        for mname in ([module] if isinstance(module, str) else module):
+            f.write('import %s\n' % mname)
         for t in theorems:
             f.write('#print axioms %s\n' % t)
     pr = subprocess.run(['lake', 'env', 'lean', path], cwd=LEAN, capture_output=True, text=True, timeout=1200)
